@@ -68,6 +68,7 @@ Judge(e) ==
   /\ Chk(e.ev = "shutdown.returned" => (e.ok /\ e.ms <= 2500), "c16_shutdown_did_not_complete_in_time")
   /\ Chk((s.down /\ LibraryEvent(e)) => FALSE, "c16_activity_after_shutdown")
   /\ Chk(e.ev = "end" => e.leaks <= 0, "c16_goroutine_leak")
+  /\ Chk(e.ev = "end" => e.stopped, "c16_election_timer_not_stopped")
   /\ Chk(e.ev = "api.after_cancel" => (e.update_err /\ e.ms <= 1500), "c16_api_call_with_cancelled_context_blocked")
   \* ---------------- C12
   /\ Chk(e.ev = "main.run.start" => s.mainStarts = 0, "c12_main_loop_restarted_after_panic")
